@@ -58,14 +58,14 @@ int main(int argc, char** argv)
   std::string clause = argv[2];
   const Clause* cl = nullptr; for (const Clause& c : registry()) if (clause == c.id) cl = &c;
   if (!cl) { fprintf(stderr, "harness: unknown clause %s\n", clause.c_str()); return 2; }
-  Ctx ctx; std::string out, kf, argstr; std::vector<std::string> sos;
+  Ctx ctx; std::string out, kf, argstr, pre; std::vector<std::string> sos;
   for (int i = 3; i < argc; ++i) {
     std::string a = argv[i];
     auto val = [&]() -> std::string { if (i + 1 >= argc) { fprintf(stderr, "missing value for %s\n", a.c_str()); exit(2); } return argv[++i]; };
     if (a == "--tier") ctx.tier = val(); else if (a == "--seed") ctx.seed = strtoull(val().c_str(), 0, 10);
     else if (a == "--worker") ctx.worker = atoi(val().c_str()); else if (a == "--nworkers") ctx.nworkers = atoi(val().c_str());
     else if (a == "--n") ctx.ncases = strtoull(val().c_str(), 0, 10); else if (a == "--out") out = val();
-    else if (a == "--kf") kf = val(); else if (a == "--args") argstr = val(); else sos.push_back(a);
+    else if (a == "--kf") kf = val(); else if (a == "--args") argstr = val(); else if (a == "--pre") pre = val(); else sos.push_back(a);
   }
   cut_install_handlers();
   for (const std::string& p : sos) { Cut c; std::string err; if (!cut_load(c, p, err)) { fprintf(stderr, "harness: %s\n", err.c_str()); return 2; } ctx.cuts.push_back(c); }
@@ -88,7 +88,12 @@ int main(int argc, char** argv)
   auto t0 = std::chrono::steady_clock::now();
   ctx.sample_stride = std::max<uint64_t>(1, ctx.ncases / 12);
   bool exhaustive = false; std::string note;
-  if (!strcmp(cl->engine, "rc")) run_rc(ctx, *cl);
+  if (!pre.empty()) {   // replay tier: saved failing cases of earlier runs (one per line: comma-separated args), evaluated first
+    std::ifstream in(pre); std::string line;
+    while (std::getline(in, line)) { Args a; std::istringstream ss(line); std::string t; while (std::getline(ss, t, ',')) if (!t.empty()) a.push_back((int64_t)strtoll(t.c_str(), 0, 10)); if (!a.empty()) { ctx.evaluate(*cl, a); ++ctx.extra["regression-seeds-replayed"]; } }
+  }
+  if (ctx.fail_last.set) { /* a saved case fails again: report it as is */ }
+  else if (!strcmp(cl->engine, "rc")) run_rc(ctx, *cl);
   else { SweepInfo si = cl->sweep(ctx, *cl); exhaustive = si.exhaustive; note = si.note;
          if (ctx.fail_last.set) { Args s = shrink_ints(ctx, *cl, ctx.fail_last.args); (void)s; } }
   double wall = std::chrono::duration<double>(std::chrono::steady_clock::now() - t0).count();
